@@ -127,3 +127,58 @@ def ref_fullcompare(la, lb):
 
 def sign(x):
     return (x > 0) - (x < 0)
+
+
+# ---- RR walker (B2 + fixed RR header + RDLENGTH skip), used by C03 / C08 / C14 -------------
+
+def walk_message(wire):
+    """Independent decoder of a whole message: returns dict(id, flags, counts, sections) where
+    sections[i] is a list of (labels, rrtype, rrclass, ttl, rdata_offset, rdata_bytes);
+    raises Reject on any malformed name / pointer / truncation / trailing octets."""
+    if len(wire) < 12:
+        raise Reject("short header")
+    u16 = lambda o: wire[o] * 256 + wire[o + 1]  # noqa: E731
+    mid, flags = u16(0), u16(2)
+    counts = [u16(4), u16(6), u16(8), u16(10)]
+    pos = 12
+    sections = [[], [], [], []]
+    for s in range(4):
+        for _ in range(counts[s]):
+            labels, used, _f = ref_name_from_wire(wire, pos)
+            pos += used
+            if s == 0:
+                if pos + 4 > len(wire):
+                    raise Reject("truncated question")
+                sections[0].append((labels, u16(pos), u16(pos + 2), 0, pos + 4, b""))
+                pos += 4
+                continue
+            if pos + 10 > len(wire):
+                raise Reject("truncated RR header")
+            rrtype, rrclass = u16(pos), u16(pos + 2)
+            ttl = (u16(pos + 4) << 16) + u16(pos + 6)
+            rdlen = u16(pos + 8)
+            pos += 10
+            if pos + rdlen > len(wire):
+                raise Reject("truncated RDATA")
+            sections[s].append((labels, rrtype, rrclass, ttl, pos, wire[pos:pos + rdlen]))
+            pos += rdlen
+    if pos != len(wire):
+        raise Reject("trailing octets")
+    return {"id": mid, "flags": flags, "counts": counts, "sections": sections}
+
+
+# offsets of domain names inside the RDATA of the types the harness messages use (for pointer checks)
+def rdata_names(wire, rrtype, off, rdata):
+    """Decode the (possibly compressed) names embedded in RDATA of NS/CNAME/PTR/MX/SOA/SRV; returns list of label lists."""
+    out = []
+    if rrtype in (2, 5, 12):
+        out.append(ref_name_from_wire(wire, off)[0])
+    elif rrtype == 15:
+        out.append(ref_name_from_wire(wire, off + 2)[0])
+    elif rrtype == 33:
+        out.append(ref_name_from_wire(wire, off + 6)[0])
+    elif rrtype == 6:
+        a, used, _f = ref_name_from_wire(wire, off)
+        out.append(a)
+        out.append(ref_name_from_wire(wire, off + used)[0])
+    return out
